@@ -92,6 +92,7 @@ pub fn sc_signature(sc: &StreamScenario) -> u64 {
             }
             WriteStep::Half => h.u64(3),
             WriteStep::Interrupted => h.u64(4),
+            WriteStep::AllButOne => h.u64(5),
         }
     }
     h.finish()
